@@ -44,7 +44,7 @@ def attribute(rep, bad):
 
 def check(rep, tier, seed, replay):
     budget = 50000 if tier == "thorough" else 5000
-    total = nontrivial = refuted_n = 0
+    total = nontrivial = refuted_n = certified = cert_tried = 0
     kinds = {}
     samples = []
     all_mism = []
@@ -71,6 +71,12 @@ def check(rep, tier, seed, replay):
         nontrivial += len({(it[0], it[1]) for it in items})
         bad = judge_refutations(rep, items, budget)
         attribute(rep, bad)
+        # refutations of the REAL code certified by theorem: the repaired model (for which
+        # cant_*_sound are proved) refutes too, hence the event never happens - no step budget
+        cert_items = items if tier == "thorough" else items[:4000]
+        co = core.run_driver([f"{OPS[g]}_fix 1 1 {c.split(' ')[1]} | {pr}" for g, pr, c, a in cert_items])
+        certified += sum(1 for o in co if o.startswith("refuted"))
+        cert_tried += len(cert_items)
         total += len(lines)
         samples += lines[:1]
         core.log(f"[C04] {name}: {len(lines)} cases, {len(items)} refutations, {len(bad)} contradicted by L0")
@@ -89,6 +95,12 @@ def check(rep, tier, seed, replay):
     rep.cov["samples"] = samples[:6]
     rep.cov["answer_kinds"] = kinds
     rep.cov["refutations_judged"] = refuted_n
+    rep.cov["refutations_checked_against_repaired_model"] = cert_tried
+    rep.cov["refutations_certified_by_theorem"] = certified
+    rep.cov["explanation"] = ("a 'refuted' answer of the real code is certified by theorem when the repaired model (fixF1 = fixF2 = true), "
+                              "for which cant_halt_sound / cant_blank_sound / cant_spin_out_sound are proved for every depth, refutes the same "
+                              "event for the same program and depth: then the event never happens, with no step budget involved. The others "
+                              "are judged by the budgeted L0 run only.")
     rep.cov["correspondence_mismatches"] = len(all_mism)
     rep.assumptions.append(f"L0 oracle budget {budget} base steps: an event later than that is not seen")
     import os
